@@ -611,3 +611,127 @@ func cmdLang(args []string) {
 }
 
 func init() { register("lang", cmdLang) }
+
+// replay-event: re-executes one recorded observation against the current tree and prints the
+// fresh event (same shape), for `bin/check <ID> --replay file`
+func cmdReplayEvent(args []string) {
+	fs := flag.NewFlagSet("replay-event", flag.ExitOnError)
+	commonFlags(fs)
+	file := fs.String("file", "", "replay file written by a check")
+	fs.Parse(args)
+	b, err := os.ReadFile(*file)
+	if err != nil {
+		die("%v", err)
+	}
+	var r struct {
+		Event map[string]any `json:"event"`
+	}
+	if err := json.Unmarshal(b, &r); err != nil || r.Event == nil {
+		die("no event in %s", *file)
+	}
+	ev := r.Event
+	rec := NewRecorder()
+	str := func(k string) string { s, _ := ev[k].(string); return s }
+	switch str("k") {
+	case "dec":
+		rec.Add(evBody(decodeFull(str("fam"), str("lvl")[0], unescape(str("s")), true)), "replay")
+	case "pair":
+		a, _ := ev["a"].(map[string]any)
+		bb, _ := ev["b"].(map[string]any)
+		as, _ := a["s"].(string)
+		bs, _ := bb["s"].(string)
+		type pe struct {
+			K   string    `json:"k"`
+			Fam string    `json:"fam"`
+			Lvl string    `json:"lvl"`
+			A   *decEvent `json:"a"`
+			B   *decEvent `json:"b"`
+		}
+		rec.Add(evBody(pe{"pair", str("fam"), "E", decodeFull(str("fam"), 'E', unescape(as), false), decodeFull(str("fam"), 'E', unescape(bs), false)}), "replay")
+	case "v3":
+		var v v3Vec
+		all := str("b") + str("t") + str("e")
+		for i := 0; i < v3N && i < len(all); i++ {
+			for ci, cc := range v3Defs[i].Codes {
+				if cc.Code == string(all[i]) {
+					v[i] = uint8(ci)
+				}
+			}
+		}
+		vi := 0
+		if str("ver") == "3.1" {
+			vi = 1
+		}
+		upto := map[string]int{"B": 8, "T": 11, "E": 22}[str("lvl")]
+		s := v3Join(str("ver"), v3Tokens(&v, upto, 0))
+		o, err := v3Decode(str("lvl")[0], s)
+		_ = vi
+		if err != nil {
+			rec.Add(v3ErrBody(str("ver"), &v, str("lvl"), err), "replay dec vector="+s)
+			break
+		}
+		switch str("lvl") {
+		case "B":
+			rec.Add(v3EventBody(str("ver"), &v, "B", o.b.Score(), o.b.Severity().String(), true), "replay vector="+s)
+		case "T":
+			rec.Add(v3EventBody(str("ver"), &v, "T", o.t.Score(), o.t.Severity().String(), true), "replay vector="+s)
+		default:
+			rec.Add(v3EventBody(str("ver"), &v, "E", o.e.Score(), o.e.Severity().String(), true), "replay vector="+s)
+		}
+	case "v2":
+		var v v2Vec
+		get := func(k string) []string {
+			out := []string{}
+			if l, ok := ev[k].([]any); ok {
+				for _, x := range l {
+					out = append(out, x.(string))
+				}
+			}
+			return out
+		}
+		bs, ts, es := get("b"), get("t"), get("e")
+		codes := append(append(append([]string{}, bs...), pad(ts, 3)...), pad(es, 5)...)
+		for i := 0; i < v2N && i < len(codes); i++ {
+			for ci, cc := range v2Defs[i].Codes {
+				if cc.Code == codes[i] {
+					v[i] = uint8(ci)
+				}
+			}
+		}
+		s := v2String(&v, len(ts) > 0, len(es) > 0)
+		dec := str("lvl")[0]
+		if len(es) > 0 {
+			dec = 'E'
+		} else if len(ts) > 0 && dec == 'B' {
+			dec = 'T'
+		}
+		o, err := v2Decode(dec, s)
+		if err != nil {
+			rec.Add(v2ErrBody(&v, len(ts) > 0, len(es) > 0, str("lvl"), err), "replay vector="+s)
+			break
+		}
+		switch str("lvl") {
+		case "B":
+			rec.Add(v2EventBody(&v, false, false, "B", o.b.Score(), o.b.Severity().String()), "replay vector="+s)
+		case "T":
+			rec.Add(v2EventBody(&v, len(ts) > 0, false, "T", o.t.Score(), o.t.Severity().String()), "replay vector="+s)
+		default:
+			if o.e != nil {
+				rec.Add(v2EventBody(&v, len(ts) > 0, len(es) > 0, "E", o.e.Score(), o.e.Severity().String()), "replay vector="+s)
+			}
+		}
+	default:
+		fmt.Println(`{"unsupported":true}`)
+		return
+	}
+	printSummary(rec.Flush(flagOut, "replay", 1))
+}
+
+func pad(s []string, n int) []string {
+	for len(s) < n {
+		s = append(s, "")
+	}
+	return s
+}
+
+func init() { register("replay-event", cmdReplayEvent) }
